@@ -456,8 +456,9 @@ fn rand_cfg(rng: &mut Rng, depth: Option<u8>) -> YuvConfig {
 
 fn hostile_image(rng: &mut Rng, n: usize, st: &mut Stats) -> Vec<[f32; 3]> {
     let mode = rng.below(3);
-    (0..n)
-        .map(|_| {
+    // the caller's Vec has spare capacity beyond its length (as with_capacity + push produces): nothing may touch it
+    let mut v: Vec<[f32; 3]> = Vec::with_capacity(n + 1 + (n % 3));
+    v.extend((0..n).map(|_| {
             let p = match mode {
                 0 => gen::hostile_px(rng),
                 1 => [rng.unit() as f32, rng.unit() as f32, rng.unit() as f32],
@@ -468,8 +469,8 @@ fn hostile_image(rng: &mut Rng, n: usize, st: &mut Stats) -> Vec<[f32; 3]> {
             }
             st.pixels += 1;
             p
-        })
-        .collect()
+        }));
+    v
 }
 
 fn walk_case(ctx: &Ctx, idx: u64, sel: &ChildSel, maxdim: u64, st: &mut Stats) {
@@ -578,7 +579,7 @@ fn float_case(ctx: &Ctx, idx: u64, sel: &ChildSel, npx: usize, st: &mut Stats) {
     let mut rng = Rng::new(ctx.seed, 0xF10A_0000 + idx);
     // hostile pixels: specials first (every special lands in every stage over the chunks), then random
     let chunk = idx / FLOAT_STAGES;
-    let mut px: Vec<[f32; 3]> = Vec::with_capacity(npx);
+    let mut px: Vec<[f32; 3]> = Vec::with_capacity(npx + 3); // spare capacity on purpose
     let nsp = gen::SPECIALS.len();
     for i in 0..npx {
         let p = if chunk == 0 && i < nsp {
@@ -917,7 +918,24 @@ fn c13_case(ctx: &Ctx, ci: u64, cfgt: (TC, CP, MC, bool, u8), st: &mut Stats) ->
     let cfg = cfg_full(m, t, p, full, n, ss);
     // sizes vary from config to config (a thread sees growing and shrinking images), always divisible by 4
     let hh = if ctx.flag("lite") { 4 } else { ctx.pick(24, 128) };
-    let (w, h) = ([8usize, 4, 16, 12][(ci % 4) as usize], [hh, 4, hh / 2, 8][((ci / 4) % 4) as usize].max(4) & !3);
+    let (mut w, mut h) = ([8usize, 4, 16, 12][(ci % 4) as usize], [hh, 4, hh / 2, 8][((ci / 4) % 4) as usize].max(4) & !3);
+    // an axis that is not subsampled may have any length (odd included); every 16th case is the empty image
+    if ss.0 == 0 && ci % 3 == 1 {
+        w += 1;
+    }
+    if ss.1 == 0 && ci % 2 == 1 {
+        h += 1;
+    }
+    if ci % 16 == 9 {
+        w = 0;
+        h = 0;
+    }
+    // a request the library refuses (3x3 into 4:2:0 panics by design) must not disturb the valid conversions that follow it
+    if ci % 32 == 5 {
+        let bad = Rgb::new(vec![[0.5f32; 3]; 9], 3, 3, t, p).unwrap();
+        let refused = ev::guarded(|| Yuv::<u16>::try_from((&bad, cfg_full(m, t, p, full, n, (1, 1)))).is_ok());
+        std::hint::black_box(refused.is_ok());
+    }
     let px = hostile_image(&mut rng, w * h, st);
     let cj = J::obj().set("kind", "c13").set("config_index", ci).set("cfg", cfg_json(&cfg)).set("seed", ctx.seed).set("tier", if ctx.tier == Tier::Quick { "quick" } else { "thorough" }).set("lite", ctx.flag("lite"));
     let mut conv = 0u64;
